@@ -155,6 +155,11 @@ def run(ck):
     two, three = 2 * np.eye(3, dtype=int), 3 * np.eye(3, dtype=int)
     fixed = [("vacancy", "B2 binary host + solute", b2, 0, two), ("vacancy", "L1_2 binary host + solute", l12, 1, two),
              ("vacancy", "ternary host + solute", tern, 0, two), ("interstitial", "B2 host + interstitial sublattice", b2i, 2, two)]
+    # one-unit-cell supercells of multi-component crystals whose mobile sublattice has a single site: the vacancy / solute empties
+    # or replaces a whole species, so structure files have an EMPTY species block in front of occupied ones
+    rs = crystal.Crystal(0.5 * np.array([[0., 1, 1], [1, 0, 1], [1, 1, 0]]).T, [[A(0, 0, 0)], [A(.5, .5, .5)]], chemistry=["Na", "Cl"])
+    fixed += [("vacancy", "B2 binary host + solute, ONE unit cell", b2, 0, np.eye(3, dtype=int)),
+              ("vacancy", "rocksalt-like host + solute, ONE unit cell", rs, 0, np.eye(3, dtype=int))]
     if not ck.quick:
         fixed += [("vacancy", "B2 binary host + solute", b2, 1, three), ("vacancy", "ternary host + solute", tern, 1, np.diag([2, 2, 3])),
                   ("interstitial", "ternary host + interstitial sublattice", terni, 3, two),
